@@ -306,4 +306,562 @@ theorem sem_un {env : Env} (o : UnOp) {e : Expr} (ih : SemE env e) : SemE env (.
     refine sem_generic ?_ hval
     intro t f b σ; simp only [bld, foldNeg, finish]
 
+theorem sem_bi {env : Env} (o : BiOp) {l r : Expr} (ihl : SemE env l) (ihr : SemE env r) :
+    SemE env (.bi o l r) := by
+  refine sem_generic (fun t f b σ => by simp only [bld, finish]) ?_
+  intro b σ bl hu hs hb ho hx s rv
+  simp only [userE, Bool.and_eq_true] at hu
+  simp only [hsE, Bool.and_eq_true] at hs
+  have ga := bld_good l .val b σ hb ho
+  have gc := bld_good r .val _ _ ga.lt ga.opn
+  have res := bld_residual l b σ hb ho
+  simp only [bld, finish] at hx ⊢
+  have hxa : Ext (bld l .val b σ).2.2 bl := Ext.step gc.touch ga.opn hx
+  obtain ⟨sA, hstA, hevA, hagA, htmA⟩ := ihl .val b σ bl hu.1 hs.1.1 hb ho hxa s rv
+  have hcg := eval_congr env r hu.2 sA.1 (eval env l s).2.1 (eval env l s).2.2 hagA
+  cases hlr : lifts r with
+  | false =>
+    obtain ⟨h1, h2⟩ := bld_nolift r hlr (bld l .val b σ).2.1 (bld l .val b σ).2.2
+    have e1 : (bld r .val (bld l .val b σ).2.1 (bld l .val b σ).2.2).2.1 = (bld l .val b σ).2.1 := congrArg Prod.fst h1
+    have e2 : (bld r .val (bld l .val b σ).2.1 (bld l .val b σ).2.2).2.2 = (bld l .val b σ).2.2 := congrArg Prod.snd h1
+    rw [e1, e2]
+    have hst := eval_store_of_not_lifts env r hlr (sA.1, (eval env l s).2.2)
+    refine ⟨sA, hstA, ?_, ?_, htmA⟩
+    · simp only [eval, hevA, h2]
+      obtain ⟨c1, c2, _⟩ := hcg
+      have : eval env r (sA.1, (eval env l s).2.2) =
+          ((eval env r (eval env l s).2).1, (sA.1, (eval env r (eval env l s).2).2.2)) := by
+        apply Prod.ext
+        · exact c1
+        · apply Prod.ext
+          · exact hst
+          · exact c2
+      rw [this]
+      exact applyBi_swap env o _ _ _ _ _
+    · simp only [eval, applyBi_store]
+      have := hcg.2.2
+      rw [hst] at this
+      exact this
+  | true =>
+    obtain ⟨hrc, hrd⟩ := sib_spec hs.2 hlr
+    have hnc : anyCall (bld l .val b σ).1 = false := by rw [res.2.1]; exact hrc
+    have htr : (eval env l s).2.2 = sA.2 := by
+      have := eval_trace_of_no_call env _ hnc sA
+      rw [hevA] at this; exact this
+    obtain ⟨sC, hstC, hevC, hagC, htmC⟩ := ihr .val _ _ bl hu.2 hs.1.2 ga.lt ga.opn hx sA rv
+    have hsA : sA = (sA.1, (eval env l s).2.2) := by rw [htr]
+    rw [← hsA] at hcg
+    have hpure : eval env (bld l .val b σ).1 sC = ((eval env l s).1, sC) := by
+      have := eval_pure env _ res.1 hnc sC sA (by
+        intro x hx
+        rcases res.2.2 x hx with h | ⟨k, rfl, hk⟩
+        · obtain ⟨u, rfl⟩ := resReads_user l hu.1 x h
+          rw [hagC u]; exact eval_writes env r sA _ (hrd _ h)
+        · exact htmC k hk)
+      rw [this, hevA]
+    refine ⟨sC, hstA.trans hstC, ?_, ?_, ?_⟩
+    · simp only [eval, hpure, hevC]
+      rw [hcg.1, hcg.2.1]
+      exact applyBi_swap env o _ _ _ _ _
+    · simp only [eval, applyBi_store]
+      exact hagC.trans hcg.2.2
+    · intro k hk
+      rw [htmC k (Nat.lt_of_lt_of_le hk ga.touch.tmp)]; exact htmA k hk
+
+theorem sem_walrus {env : Env} (x : Var) {e : Expr} (ih : SemE env e) : SemE env (.walrus x e) := by
+  refine sem_generic (fun t f b σ => by simp only [bld, finish]) ?_
+  intro b σ bl hu hs hb ho hx s rv
+  cases x with
+  | tmp n => simp [userE] at hu
+  | user u =>
+    simp only [userE] at hu
+    simp only [hsE] at hs
+    have ga := bld_good e .val b σ hb ho
+    simp only [bld, finish] at hx ⊢
+    have hxa : Ext (bld e .val b σ).2.2 bl := Ext.step (touch_addStmt _ _ _) ga.opn hx
+    obtain ⟨sA, hstA, hevA, hagA, htmA⟩ := ih .val b σ bl hu hs hb ho hxa s rv
+    have h1 := step_stmt (env := env) hx (b := (bld e .val b σ).2.1)
+      (k := ((bld e .val b σ).2.2.blk (bld e .val b σ).2.1).stmts.length) (by simpa using ga.lt)
+      (st := .assign (.user u) (bld e .val b σ).1) (by rw [blk_addStmt_same _ _ _ ga.lt]; simp) sA rv
+    simp only [execB, hevA] at h1
+    have hln : ((addStmt (bld e .val b σ).2.1 (.assign (.user u) (bld e .val b σ).1) (bld e .val b σ).2.2).blk
+        (bld e .val b σ).2.1).stmts.length = ((bld e .val b σ).2.2.blk (bld e .val b σ).2.1).stmts.length + 1 := by
+      rw [blk_addStmt_same _ _ _ ga.lt]; simp
+    rw [hln]
+    refine ⟨_, hstA.trans (Steps.single h1), ?_, ?_, ?_⟩
+    · simp only [eval, set_same]
+    · simp only [eval]; exact agreeU_set hagA _ _
+    · intro k hk; simp only []; rw [set_other _ _ (by simp)]; exact htmA k hk
+
+/-- short-circuit expressions (`and`, `or`, chained comparison): branch mode is the body itself, value
+    mode wraps it between two fresh targets and the merge block -/
+theorem sem_sc {env : Env} {e : Expr} (body : Nat → Nat → Nat → BState → BState)
+    (hbld : ∀ m b σ, bld e m b σ =
+      scPost m (scPre m σ).1 (scPre m σ).2.1 b (body (scPre m σ).1 (scPre m σ).2.1 b (scPre m σ).2.2))
+    (hbool : ∀ s, (eval env e s).1 = .bool (eval env e s).1.truthy)
+    (htouch : ∀ t' f' b σp, b < σp.len → (σp.blk b).succs = [] → Touch σp b (body t' f' b σp))
+    (hbr : ∀ t' f' b σp bl, userE e = true → hsE e = true → b < σp.len → (σp.blk b).succs = [] →
+      Ext (body t' f' b σp) bl → ∀ s rv, BrPost env bl e b (σp.blk b).stmts.length σp.nextTmp t' f' s rv) :
+    SemE env e := by
+  intro m b σ bl hu hs hb ho hx s rv
+  rw [hbld] at hx
+  cases m with
+  | br t f => exact hbr t f b σ bl hu hs hb ho hx s rv
+  | val =>
+    simp only [hbld, scPre_val] at hx ⊢
+    have hb' : b < (newBB (newBB σ).2).2.len := by simp; omega
+    have ho' : ((newBB (newBB σ).2).2.blk b).succs = [] := by
+      rw [blk_newBB_old _ b (by simp; omega), blk_newBB_old σ b hb]; exact ho
+    have hT := htouch σ.len (σ.len + 1) b _ hb' ho'
+    have hlen := hT.len
+    simp only [len_newBB] at hlen
+    have hte : (body σ.len (σ.len + 1) b (newBB (newBB σ).2).2).blk σ.len = {} := by
+      rw [hT.frame σ.len (by simp; omega) (by omega), blk_newBB_old _ _ (by simp), blk_newBB_new]
+    have hfe : (body σ.len (σ.len + 1) b (newBB (newBB σ).2).2).blk (σ.len + 1) = {} := by
+      rw [hT.frame (σ.len + 1) (by simp) (by omega)]
+      have := blk_newBB_new (newBB σ).2
+      simp only [len_newBB] at this
+      exact this
+    have hnt : σ.nextTmp ≤ (body σ.len (σ.len + 1) b (newBB (newBB σ).2).2).nextTmp := hT.tmp
+    have hbl : ((newBB (newBB σ).2).2.blk b).stmts.length = (σ.blk b).stmts.length := by
+      rw [blk_newBB_old _ b (by simp; omega), blk_newBB_old σ b hb]
+    refine sc_wrap_sem (by omega) (by omega) (by omega) hte hfe hnt hx (hbool s) ?_
+    intro hx2
+    have := hbr σ.len (σ.len + 1) b _ bl hu hs hb' ho' hx2 s rv
+    rw [hbl] at this
+    exact this
+
+theorem eval_and (env : Env) (l r : Expr) (s : S) : eval env (.and l r) s =
+    if (eval env l s).1.truthy then (.bool (eval env r (eval env l s).2).1.truthy, (eval env r (eval env l s).2).2)
+    else (.bool false, (eval env l s).2) := rfl
+theorem eval_or (env : Env) (l r : Expr) (s : S) : eval env (.or l r) s =
+    if (eval env l s).1.truthy then (.bool true, (eval env l s).2)
+    else (.bool (eval env r (eval env l s).2).1.truthy, (eval env r (eval env l s).2).2) := rfl
+
+/-- `eval` from a state that agrees with Python's state on user variables and has the same trace -/
+theorem eval_from_agree (env : Env) (e : Expr) (hu : userE e = true) (sA s1 : S) (htr : sA.2 = s1.2)
+    (hag : agreeU sA.1 s1.1) :
+    (eval env e sA).1 = (eval env e s1).1 ∧ (eval env e sA).2.2 = (eval env e s1).2.2 ∧
+    agreeU (eval env e sA).2.1 (eval env e s1).2.1 := by
+  have := eval_congr env e hu sA.1 s1.1 s1.2 hag
+  have h1 : sA = (sA.1, s1.2) := by rw [← htr]
+  rw [← h1] at this
+  exact this
+
+theorem sem_and {env : Env} {l r : Expr} (ihl : SemE env l) (ihr : SemE env r) : SemE env (.and l r) := by
+  refine sem_sc (fun t' f' b σp => (bld r (.br t' f') σp.len (bld l (.br σp.len f') b (newBB σp).2).2.2).2.2)
+    (fun m b σ => rfl) ?_ ?_ ?_
+  · intro s; rw [eval_and]; split <;> simp
+  · intro t' f' b σp hb ho
+    exact (sc_body hb ho σp.len rfl (fun s => (bld l (.br σp.len f') b s).2.2)
+      (fun s => (bld r (.br t' f') σp.len s).2.2)
+      (fun s h1 h2 => bld_good l (.br σp.len f') b s h1 h2)
+      (fun s h1 h2 => bld_good r (.br t' f') σp.len s h1 h2)).1
+  · intro t' f' b σp bl hu hs hb ho hx s rv
+    simp only [userE, Bool.and_eq_true] at hu
+    simp only [hsE, Bool.and_eq_true] at hs
+    have hb' : b < (newBB σp).2.len := by simp; omega
+    have ho' : ((newBB σp).2.blk b).succs = [] := by rw [blk_newBB_old σp b hb]; exact ho
+    have t1 := bld_good l (.br σp.len f') b _ hb' ho'
+    have hl1 := t1.len
+    simp only [len_newBB] at hl1
+    have hxe : (bld l (.br σp.len f') b (newBB σp).2).2.2.blk σp.len = {} := by
+      rw [t1.frame σp.len (by simp) (by omega), blk_newBB_new]
+    have hxo : ((bld l (.br σp.len f') b (newBB σp).2).2.2.blk σp.len).succs = [] := by rw [hxe]
+    have t2 := bld_good r (.br t' f') σp.len _ (by omega) hxo
+    have hx1 : Ext (bld l (.br σp.len f') b (newBB σp).2).2.2 bl := Ext.step t2 hxo hx
+    obtain ⟨sA, hstA, htrA, hagA, htmA⟩ := ihl (.br σp.len f') b _ bl hu.1 hs.1 hb' ho' hx1 s rv
+    rw [blk_newBB_old σp b hb] at hstA
+    unfold BrPost
+    rw [eval_and]
+    cases hv : (eval env l s).1.truthy with
+    | false =>
+      rw [hv] at hstA
+      exact ⟨sA, by simpa using hstA, by simpa using htrA, by simpa using hagA, htmA⟩
+    | true =>
+      rw [hv] at hstA
+      obtain ⟨sB, hstB, htrB, hagB, htmB⟩ := ihr (.br t' f') σp.len _ bl hu.2 hs.2 (by omega) hxo hx sA rv
+      rw [hxe] at hstB
+      obtain ⟨c1, c2, c3⟩ := eval_from_agree env r hu.2 sA (eval env l s).2 htrA hagA
+      rw [c1] at hstB
+      refine ⟨sB, ?_, ?_, ?_, ?_⟩
+      · simp only [if_true, truthy_bool]
+        exact hstA.trans (by simpa using hstB)
+      · simp only [if_true]; rw [htrB, c2]
+      · simp only [if_true]; exact hagB.trans c3
+      · intro k hk
+        rw [htmB k (Nat.lt_of_lt_of_le (by simpa using hk) t1.tmp)]; exact htmA k hk
+
+theorem sem_or {env : Env} {l r : Expr} (ihl : SemE env l) (ihr : SemE env r) : SemE env (.or l r) := by
+  refine sem_sc (fun t' f' b σp => (bld r (.br t' f') σp.len (bld l (.br t' σp.len) b (newBB σp).2).2.2).2.2)
+    (fun m b σ => rfl) ?_ ?_ ?_
+  · intro s; rw [eval_or]; split <;> simp
+  · intro t' f' b σp hb ho
+    exact (sc_body hb ho σp.len rfl (fun s => (bld l (.br t' σp.len) b s).2.2)
+      (fun s => (bld r (.br t' f') σp.len s).2.2)
+      (fun s h1 h2 => bld_good l (.br t' σp.len) b s h1 h2)
+      (fun s h1 h2 => bld_good r (.br t' f') σp.len s h1 h2)).1
+  · intro t' f' b σp bl hu hs hb ho hx s rv
+    simp only [userE, Bool.and_eq_true] at hu
+    simp only [hsE, Bool.and_eq_true] at hs
+    have hb' : b < (newBB σp).2.len := by simp; omega
+    have ho' : ((newBB σp).2.blk b).succs = [] := by rw [blk_newBB_old σp b hb]; exact ho
+    have t1 := bld_good l (.br t' σp.len) b _ hb' ho'
+    have hl1 := t1.len
+    simp only [len_newBB] at hl1
+    have hxe : (bld l (.br t' σp.len) b (newBB σp).2).2.2.blk σp.len = {} := by
+      rw [t1.frame σp.len (by simp) (by omega), blk_newBB_new]
+    have hxo : ((bld l (.br t' σp.len) b (newBB σp).2).2.2.blk σp.len).succs = [] := by rw [hxe]
+    have t2 := bld_good r (.br t' f') σp.len _ (by omega) hxo
+    have hx1 : Ext (bld l (.br t' σp.len) b (newBB σp).2).2.2 bl := Ext.step t2 hxo hx
+    obtain ⟨sA, hstA, htrA, hagA, htmA⟩ := ihl (.br t' σp.len) b _ bl hu.1 hs.1 hb' ho' hx1 s rv
+    rw [blk_newBB_old σp b hb] at hstA
+    unfold BrPost
+    rw [eval_or]
+    cases hv : (eval env l s).1.truthy with
+    | true =>
+      rw [hv] at hstA
+      exact ⟨sA, by simpa using hstA, by simpa using htrA, by simpa using hagA, htmA⟩
+    | false =>
+      rw [hv] at hstA
+      obtain ⟨sB, hstB, htrB, hagB, htmB⟩ := ihr (.br t' f') σp.len _ bl hu.2 hs.2 (by omega) hxo hx sA rv
+      rw [hxe] at hstB
+      obtain ⟨c1, c2, c3⟩ := eval_from_agree env r hu.2 sA (eval env l s).2 htrA hagA
+      rw [c1] at hstB
+      refine ⟨sB, ?_, ?_, ?_, ?_⟩
+      · simp only [Bool.false_eq_true, if_false, truthy_bool]
+        exact hstA.trans (by simpa using hstB)
+      · simp only [Bool.false_eq_true, if_false]; rw [htrB, c2]
+      · simp only [Bool.false_eq_true, if_false]; exact hagB.trans c3
+      · intro k hk
+        rw [htmB k (Nat.lt_of_lt_of_le (by simpa using hk) t1.tmp)]; exact htmA k hk
+
+theorem eval_cmp2 (env : Env) (o1 o2 : CmpOp) (l m r : Expr) (s : S) : eval env (.cmp2 o1 o2 l m r) s =
+    if compare o1 (eval env l s).1 (eval env m (eval env l s).2).1 then
+      (.bool (compare o2 (eval env m (eval env l s).2).1 (eval env r (eval env m (eval env l s).2).2).1),
+        (eval env r (eval env m (eval env l s).2).2).2)
+    else (.bool false, (eval env m (eval env l s).2).2) := rfl
+
+theorem eval_pure_state (env : Env) (e : Expr) (hl : lifts e = false) (hc : anyCall e = false) (s : S) :
+    (eval env e s).2 = s :=
+  Prod.ext (eval_store_of_not_lifts env e hl s) (eval_trace_of_no_call env e hc s)
+
+theorem eval_cmp (env : Env) (o : CmpOp) (l r : Expr) (s : S) : eval env (.bi (.cmp o) l r) s =
+    (.bool (compare o (eval env l s).1 (eval env r (eval env l s).2).1), (eval env r (eval env l s).2).2) := rfl
+
+/-! intermediate states of a chained comparison, named so that terms stay readable -/
+def c2a (l : Expr) (b : Nat) (σp : BState) : R := bld l .val b (newBB σp).2
+def c2s1 (o1 : CmpOp) (l mid : Expr) (f' b : Nat) (σp : BState) : BState :=
+  branchOn (c2a l b σp).2.1
+    (.bi (.cmp o1) (c2a l b σp).1 (bld mid .val (c2a l b σp).2.1 (c2a l b σp).2.2).1) σp.len f' (c2a l b σp).2.2
+def c2s1' (o1 : CmpOp) (l mid : Expr) (f' b : Nat) (σp : BState) : BState :=
+  { c2s1 o1 l mid f' b σp with bad := (c2s1 o1 l mid f' b σp).bad || lifts mid || negNeg mid }
+def c2d (o1 : CmpOp) (l mid r : Expr) (f' b : Nat) (σp : BState) : R :=
+  bld r .val σp.len (c2s1' o1 l mid f' b σp)
+
+theorem cmp2Body_eq (o1 o2 : CmpOp) (l mid r : Expr) (t' f' b : Nat) (σp : BState) (hlm : lifts mid = false) :
+    cmp2Body o1 o2 l mid r t' f' b σp =
+      branchOn (c2d o1 l mid r f' b σp).2.1
+        (.bi (.cmp o2) (bld mid .val σp.len (c2s1' o1 l mid f' b σp)).1 (c2d o1 l mid r f' b σp).1) t' f'
+        (c2d o1 l mid r f' b σp).2.2 := by
+  obtain ⟨n1, _⟩ := bld_nolift mid hlm (c2a l b σp).2.1 (c2a l b σp).2.2
+  have e1 := congrArg Prod.fst n1
+  have e2 := congrArg Prod.snd n1
+  obtain ⟨n3, _⟩ := bld_nolift mid hlm σp.len (c2s1' o1 l mid f' b σp)
+  have e3 := congrArg Prod.fst n3
+  have e4 := congrArg Prod.snd n3
+  simp only [c2s1', c2s1, c2a] at e1 e2 e3 e4
+  simp only [cmp2Body, fst_newBB, c2d, c2s1', c2s1, c2a]
+  rw [e1, e2, e3, e4]
+
+theorem sem_cmp2 {env : Env} (o1 o2 : CmpOp) {l mid r : Expr} (ihl : SemE env l) (ihr : SemE env r) :
+    SemE env (.cmp2 o1 o2 l mid r) := by
+  refine sem_sc (fun t' f' b σp => cmp2Body o1 o2 l mid r t' f' b σp) (fun m b σ => rfl) ?_ ?_ ?_
+  · intro s; rw [eval_cmp2]; split <;> simp
+  · intro t' f' b σp hb ho; exact (cmp2_body (bld_good l) (bld_good mid) (bld_good r) hb ho t' f').1
+  · intro t' f' b σp bl hu hs hb ho hx s rv
+    simp only [userE, Bool.and_eq_true] at hu
+    simp only [hsE, Bool.and_eq_true, Bool.not_eq_eq_eq_not, Bool.not_true] at hs
+    obtain ⟨⟨⟨⟨⟨⟨hsl, hsm⟩, hsr⟩, hlmsib⟩, hmrsib⟩, hcm⟩, hlm⟩ := hs
+    rw [cmp2Body_eq o1 o2 l mid r t' f' b σp hlm] at hx
+    have hb' : b < (newBB σp).2.len := by simp; omega
+    have ho' : ((newBB σp).2.blk b).succs = [] := by rw [blk_newBB_old σp b hb]; exact ho
+    have ga : GoodV (newBB σp).2 b (c2a l b σp).2.1 (c2a l b σp).2.2 := bld_good l .val b _ hb' ho'
+    have hla := ga.touch.len
+    simp only [len_newBB] at hla
+    obtain ⟨_, n2⟩ := bld_nolift mid hlm (c2a l b σp).2.1 (c2a l b σp).2.2
+    obtain ⟨_, n4⟩ := bld_nolift mid hlm σp.len (c2s1' o1 l mid f' b σp)
+    have hane : σp.len ≠ (c2a l b σp).2.1 := by
+      rcases ga.cur with h | h
+      · omega
+      · simp only [len_newBB] at h; omega
+    have tS1 : Touch (c2a l b σp).2.2 (c2a l b σp).2.1 (c2s1 o1 l mid f' b σp) := touch_branchOn _ _ _ _ _
+    have hl1 : (c2s1 o1 l mid f' b σp).len = (c2a l b σp).2.2.len := by simp [c2s1]
+    have hxe : (c2s1 o1 l mid f' b σp).blk σp.len = {} := by
+      rw [tS1.frame σp.len (by omega) hane, ga.touch.frame σp.len (by simp) (by omega), blk_newBB_new]
+    have hxe' : (c2s1' o1 l mid f' b σp).blk σp.len = {} := hxe
+    have gd : GoodV (c2s1' o1 l mid f' b σp) σp.len (c2d o1 l mid r f' b σp).2.1 (c2d o1 l mid r f' b σp).2.2 :=
+      bld_good r .val σp.len _ (by show σp.len < (c2s1 o1 l mid f' b σp).len; omega) (by rw [hxe'])
+    have hxD : Ext (c2d o1 l mid r f' b σp).2.2 bl := Ext.step (touch_branchOn _ _ _ _ _) gd.opn hx
+    have hxS1' : Ext (c2s1' o1 l mid f' b σp) bl := Ext.step gd.touch (by rw [hxe']) hxD
+    have hxS1 : Ext (c2s1 o1 l mid f' b σp) bl := ⟨hxS1'.len, hxS1'.pre, hxS1'.closed⟩
+    have hxA : Ext (c2a l b σp).2.2 bl := Ext.step tS1 ga.opn hxS1
+    obtain ⟨sA, hstA, hevA, hagA, htmA⟩ := ihl .val b _ bl hu.1.1 hsl hb' ho' hxA s rv
+    rw [blk_newBB_old σp b hb] at hstA
+    -- the first comparison
+    have hblk := blk_branchOn_same (c2a l b σp).2.1
+      (.bi (.cmp o1) (c2a l b σp).1 (bld mid .val (c2a l b σp).2.1 (c2a l b σp).2.2).1) σp.len f' _ ga.lt
+    have hsu : ((c2s1 o1 l mid f' b σp).blk (c2a l b σp).2.1).succs = [f', σp.len] := by
+      show ((branchOn _ _ _ _ _).blk _).succs = _
+      rw [hblk, ga.opn]; rfl
+    have hpr : ((c2s1 o1 l mid f' b σp).blk (c2a l b σp).2.1).pred = some
+        (.bi (.cmp o1) (c2a l b σp).1 (bld mid .val (c2a l b σp).2.1 (c2a l b σp).2.2).1) := by
+      show ((branchOn _ _ _ _ _).blk _).pred = _
+      rw [hblk]
+    have hln : ((c2s1 o1 l mid f' b σp).blk (c2a l b σp).2.1).stmts.length =
+        ((c2a l b σp).2.2.blk (c2a l b σp).2.1).stmts.length := by
+      show ((branchOn _ _ _ _ _).blk _).stmts.length = _
+      rw [hblk]
+    have h1 := step_branch (env := env) hxS1 (by rw [hl1]; exact ga.lt) hsu hpr sA rv
+    have hevA' : eval env (c2a l b σp).1 sA = ((eval env l s).1, (sA.1, (eval env l s).2.2)) := hevA
+    have hPy : (eval env mid (eval env l s).2).2 = (eval env l s).2 := eval_pure_state env mid hlm hcm _
+    have hmA : eval env mid (sA.1, (eval env l s).2.2) =
+        ((eval env mid (eval env l s).2).1, (sA.1, (eval env l s).2.2)) := by
+      apply Prod.ext
+      · exact (eval_from_agree env mid hu.1.2 (sA.1, (eval env l s).2.2) (eval env l s).2 rfl hagA).1
+      · exact eval_pure_state env mid hlm hcm _
+    have hP1 : eval env (.bi (.cmp o1) (c2a l b σp).1 (bld mid .val (c2a l b σp).2.1 (c2a l b σp).2.2).1) sA =
+        (.bool (compare o1 (eval env l s).1 (eval env mid (eval env l s).2).1), (sA.1, (eval env l s).2.2)) := by
+      rw [eval_cmp, hevA', n2, hmA]
+    rw [hln, hP1] at h1
+    simp only [truthy_bool] at h1
+    unfold BrPost
+    rw [eval_cmp2]
+    cases hc : compare o1 (eval env l s).1 (eval env mid (eval env l s).2).1 with
+    | false =>
+      rw [hc] at h1
+      refine ⟨(sA.1, (eval env l s).2.2), ?_, ?_, ?_, ?_⟩
+      · simp only [Bool.false_eq_true, if_false, truthy_bool]
+        exact hstA.trans (Steps.single (by simpa [c2a] using h1))
+      · simp only [Bool.false_eq_true, if_false]; rw [hPy]
+      · simp only [Bool.false_eq_true, if_false]; rw [hPy]; exact hagA
+      · intro k hk; exact htmA k (by simpa using hk)
+    | true =>
+      rw [hc] at h1
+      obtain ⟨sC, hstC, hevC, hagC, htmC⟩ := ihr .val σp.len _ bl hu.2 hsr
+        (by show σp.len < (c2s1 o1 l mid f' b σp).len; omega) (by rw [hxe']) hxD (sA.1, (eval env l s).2.2) rv
+      rw [hxe'] at hstC
+      obtain ⟨c1, c2, c3⟩ := eval_from_agree env r hu.2 (sA.1, (eval env l s).2.2)
+        (eval env mid (eval env l s).2).2 (by rw [hPy]) (by rw [hPy]; exact hagA)
+      -- the second comparison
+      have hblk2 := blk_branchOn_same (c2d o1 l mid r f' b σp).2.1
+        (.bi (.cmp o2) (bld mid .val σp.len (c2s1' o1 l mid f' b σp)).1 (c2d o1 l mid r f' b σp).1) t' f' _ gd.lt
+      have h2 := step_branch (env := env) hx (b := (c2d o1 l mid r f' b σp).2.1) (t := t') (f := f')
+        (p := .bi (.cmp o2) (bld mid .val σp.len (c2s1' o1 l mid f' b σp)).1 (c2d o1 l mid r f' b σp).1)
+        (by simpa using gd.lt) (by rw [hblk2, gd.opn]; rfl) (by rw [hblk2]) sC rv
+      have hln2 : ((branchOn (c2d o1 l mid r f' b σp).2.1
+          (.bi (.cmp o2) (bld mid .val σp.len (c2s1' o1 l mid f' b σp)).1 (c2d o1 l mid r f' b σp).1) t' f'
+          (c2d o1 l mid r f' b σp).2.2).blk (c2d o1 l mid r f' b σp).2.1).stmts.length =
+          ((c2d o1 l mid r f' b σp).2.2.blk (c2d o1 l mid r f' b σp).2.1).stmts.length := by rw [hblk2]
+      have hmC : eval env mid sC = ((eval env mid (eval env l s).2).1, sC) := by
+        have := eval_pure env mid hlm hcm sC (eval env l s).2 (by
+          intro x hx'
+          have hxr : x ∈ resReads mid := by rw [resReads_eq_vars mid hlm]; exact hx'
+          obtain ⟨u, rfl⟩ := resReads_user mid hu.1.2 x hxr
+          rw [hagC u, eval_writes env r _ _ (sib_reads hmrsib _ hxr)]
+          exact hagA u)
+        exact this
+      have hevC' : eval env (c2d o1 l mid r f' b σp).1 sC = ((eval env r (sA.1, (eval env l s).2.2)).1,
+          (sC.1, (eval env r (sA.1, (eval env l s).2.2)).2.2)) := hevC
+      have hP2 : eval env (.bi (.cmp o2) (bld mid .val σp.len (c2s1' o1 l mid f' b σp)).1
+          (c2d o1 l mid r f' b σp).1) sC =
+          (.bool (compare o2 (eval env mid (eval env l s).2).1 (eval env r (eval env mid (eval env l s).2).2).1),
+            (sC.1, (eval env r (eval env mid (eval env l s).2).2).2.2)) := by
+        rw [eval_cmp, n4, hmC]
+        simp only []
+        rw [hevC', c1, c2]
+      rw [hln2, hP2] at h2
+      simp only [truthy_bool] at h2
+      refine ⟨(sC.1, (eval env r (eval env mid (eval env l s).2).2).2.2), ?_, ?_, ?_, ?_⟩
+      · simp only [if_true, truthy_bool]
+        exact (hstA.trans (Steps.single (by simpa [c2a] using h1))).trans (hstC.trans (Steps.single h2))
+      · simp only [if_true]
+      · simp only [if_true]; exact hagC.trans c3
+      · intro k hk
+        have := htmC k (by
+          show k < (c2s1 o1 l mid f' b σp).nextTmp
+          have h := ga.touch.tmp
+          simp only [c2s1, tmp_branchOn]
+          simp only [tmp_newBB] at h
+          omega)
+        rw [this]; exact htmA k (by simpa using hk)
+
+theorem eval_ite (env : Env) (c x y : Expr) (s : S) : eval env (.ite c x y) s =
+    if (eval env c s).1.truthy then eval env x (eval env c s).2 else eval env y (eval env c s).2 := rfl
+
+def itS1 (c : Expr) (b : Nat) (σ : BState) : BState :=
+  (bld c (.br σ.len (σ.len + 1)) b (newBB (newBB σ).2).2).2.2
+def itU (c x : Expr) (b : Nat) (σ : BState) : R := bld x .val σ.len (itS1 c b σ)
+def itV (c x y : Expr) (b : Nat) (σ : BState) : R := bld y .val (σ.len + 1) (itU c x b σ).2.2
+
+theorem bld_ite_val (c x y : Expr) (b : Nat) (σ : BState) :
+    bld (.ite c x y) .val b σ = iteMerge (itU c x b σ) (itV c x y b σ) := by
+  simp only [bld, fst_newBB, len_newBB]; rfl
+theorem bld_ite_br (c x y : Expr) (t f b : Nat) (σ : BState) :
+    (bld (.ite c x y) (.br t f) b σ).2.2 =
+      (bld y (.br t f) (σ.len + 1) (bld x (.br t f) σ.len (itS1 c b σ)).2.2).2.2 := by
+  simp only [bld, fst_newBB, len_newBB]; rfl
+
+theorem itS1_facts (c : Expr) {b : Nat} {σ : BState} (hb : b < σ.len) (ho : (σ.blk b).succs = []) :
+    Touch (newBB (newBB σ).2).2 b (itS1 c b σ) ∧ σ.len + 2 ≤ (itS1 c b σ).len ∧
+    (itS1 c b σ).blk σ.len = {} ∧ (itS1 c b σ).blk (σ.len + 1) = {} ∧
+    b < (newBB (newBB σ).2).2.len ∧ ((newBB (newBB σ).2).2.blk b).succs = [] ∧
+    ((newBB (newBB σ).2).2.blk b).stmts.length = (σ.blk b).stmts.length := by
+  have hb' : b < (newBB (newBB σ).2).2.len := by simp; omega
+  have hbk : (newBB (newBB σ).2).2.blk b = σ.blk b := by
+    rw [blk_newBB_old _ b (by simp; omega), blk_newBB_old σ b hb]
+  have ho' : ((newBB (newBB σ).2).2.blk b).succs = [] := by rw [hbk]; exact ho
+  have t1 : Touch _ b (itS1 c b σ) := bld_good c (.br σ.len (σ.len + 1)) b _ hb' ho'
+  have hl1 := t1.len
+  simp only [len_newBB] at hl1
+  refine ⟨t1, by omega, ?_, ?_, hb', ho', by rw [hbk]⟩
+  · rw [t1.frame σ.len (by simp; omega) (by omega), blk_newBB_old _ _ (by simp), blk_newBB_new]
+  · rw [t1.frame (σ.len + 1) (by simp) (by omega)]
+    have := blk_newBB_new (newBB σ).2
+    simp only [len_newBB] at this
+    exact this
+
+theorem sem_ite {env : Env} {c x y : Expr} (ihc : SemE env c) (ihx : SemE env x) (ihy : SemE env y) :
+    SemE env (.ite c x y) := by
+  intro m b σ bl hu hs hb ho hx s rv
+  simp only [userE, Bool.and_eq_true] at hu
+  simp only [hsE, Bool.and_eq_true] at hs
+  obtain ⟨t1, hl1, htb, heb, hb', ho', hbl⟩ := itS1_facts c hb ho
+  have htbo : ((itS1 c b σ).blk σ.len).succs = [] := by rw [htb]
+  cases m with
+  | br t f =>
+    rw [bld_ite_br] at hx
+    have t2 := bld_good x (.br t f) σ.len (itS1 c b σ) (by omega) htbo
+    have hl2 := t2.len
+    have heb2 : (bld x (.br t f) σ.len (itS1 c b σ)).2.2.blk (σ.len + 1) = {} := by
+      rw [t2.frame (σ.len + 1) (by omega) (by omega)]; exact heb
+    have t3 := bld_good y (.br t f) (σ.len + 1) (bld x (.br t f) σ.len (itS1 c b σ)).2.2 (by omega) (by rw [heb2])
+    have hx2 : Ext (bld x (.br t f) σ.len (itS1 c b σ)).2.2 bl := Ext.step t3 (by rw [heb2]) hx
+    have hx1 : Ext (itS1 c b σ) bl := Ext.step t2 htbo hx2
+    obtain ⟨sA, hstA, htrA, hagA, htmA⟩ := ihc (.br σ.len (σ.len + 1)) b _ bl hu.1.1 hs.1.1 hb' ho' hx1 s rv
+    rw [hbl] at hstA
+    unfold BrPost
+    rw [eval_ite]
+    cases hv : (eval env c s).1.truthy with
+    | true =>
+      rw [hv] at hstA
+      obtain ⟨sB, hstB, htrB, hagB, htmB⟩ := ihx (.br t f) σ.len (itS1 c b σ) bl hu.1.2 hs.1.2 (by omega) htbo hx2 sA rv
+      rw [htb] at hstB
+      obtain ⟨c1, c2, c3⟩ := eval_from_agree env x hu.1.2 sA (eval env c s).2 htrA hagA
+      rw [c1] at hstB
+      refine ⟨sB, ?_, ?_, ?_, ?_⟩
+      · simp only [if_true]; exact hstA.trans (by simpa using hstB)
+      · simp only [if_true]; rw [htrB, c2]
+      · simp only [if_true]; exact hagB.trans c3
+      · intro k hk
+        rw [htmB k (Nat.lt_of_lt_of_le (by simpa using hk) (by simpa using t1.tmp))]
+        exact htmA k (by simpa using hk)
+    | false =>
+      rw [hv] at hstA
+      obtain ⟨sB, hstB, htrB, hagB, htmB⟩ := ihy (.br t f) (σ.len + 1) (bld x (.br t f) σ.len (itS1 c b σ)).2.2 bl hu.2 hs.2 (by omega) (by rw [heb2]) hx sA rv
+      rw [heb2] at hstB
+      obtain ⟨c1, c2, c3⟩ := eval_from_agree env y hu.2 sA (eval env c s).2 htrA hagA
+      rw [c1] at hstB
+      refine ⟨sB, ?_, ?_, ?_, ?_⟩
+      · simp only [Bool.false_eq_true, if_false]; exact hstA.trans (by simpa using hstB)
+      · simp only [Bool.false_eq_true, if_false]; rw [htrB, c2]
+      · simp only [Bool.false_eq_true, if_false]; exact hagB.trans c3
+      · intro k hk
+        have h1 := t1.tmp
+        have h2 := t2.tmp
+        simp only [tmp_newBB] at h1
+        rw [htmB k (by omega)]
+        exact htmA k (by simpa using hk)
+  | val =>
+    simp only [bld_ite_val, iteMerge_eq] at hx ⊢
+    have gu : GoodV (itS1 c b σ) σ.len (itU c x b σ).2.1 (itU c x b σ).2.2 :=
+      bld_good x .val σ.len (itS1 c b σ) (by omega) htbo
+    have hlu := gu.touch.len
+    have heb2 : (itU c x b σ).2.2.blk (σ.len + 1) = {} := by
+      rw [gu.touch.frame (σ.len + 1) (by omega) (by omega)]; exact heb
+    have gv : GoodV (itU c x b σ).2.2 (σ.len + 1) (itV c x y b σ).2.1 (itV c x y b σ).2.2 :=
+      bld_good y .val (σ.len + 1) _ (by omega) (by rw [heb2])
+    have hlv := gv.touch.len
+    have hune : (itU c x b σ).2.1 ≠ σ.len + 1 := by rcases gu.cur with h | h <;> omega
+    have hult := gu.lt
+    have huv : (itU c x b σ).2.1 ≠ (itV c x y b σ).2.1 := by rcases gv.cur with h | h <;> omega
+    have hvu : (itV c x y b σ).2.2.blk (itU c x b σ).2.1 = (itU c x b σ).2.2.blk (itU c x b σ).2.1 :=
+      gv.touch.frame _ hult hune
+    obtain ⟨hxv, hl0, hP, hQ⟩ := merge_sem (env := env) (itU c x b σ).1 (itV c x y b σ).1
+      (by omega) gv.lt huv (by rw [hvu]; exact gu.opn) gv.opn hx
+    have hxu : Ext (itU c x b σ).2.2 bl := Ext.step gv.touch (by rw [heb2]) hxv
+    have hx1 : Ext (itS1 c b σ) bl := Ext.step gu.touch htbo hxu
+    obtain ⟨sA, hstA, htrA, hagA, htmA⟩ := ihc (.br σ.len (σ.len + 1)) b _ bl hu.1.1 hs.1.1 hb' ho' hx1 s rv
+    rw [hbl] at hstA
+    have hnt : σ.nextTmp ≤ (itV c x y b σ).2.2.nextTmp := by
+      have h1 := t1.tmp
+      have h2 := gu.touch.tmp
+      have h3 := gv.touch.tmp
+      simp only [tmp_newBB] at h1
+      omega
+    have hnt1 : σ.nextTmp ≤ (itS1 c b σ).nextTmp := by
+      have h1 := t1.tmp
+      simp only [tmp_newBB] at h1
+      exact h1
+    unfold ValPost
+    rw [hl0, eval_ite]
+    cases hv : (eval env c s).1.truthy with
+    | true =>
+      rw [hv] at hstA
+      obtain ⟨sB, hstB, hevB, hagB, htmB⟩ := ihx .val σ.len (itS1 c b σ) bl hu.1.2 hs.1.2 (by omega) htbo hxu sA rv
+      rw [htb] at hstB
+      obtain ⟨c1, c2, c3⟩ := eval_from_agree env x hu.1.2 sA (eval env c s).2 htrA hagA
+      have h2 := hP sB rv
+      rw [hvu] at h2
+      have hevB' : eval env (itU c x b σ).1 sB = ((eval env x sA).1, (sB.1, (eval env x sA).2.2)) := hevB
+      rw [hevB'] at h2
+      refine ⟨_, (hstA.trans (by simpa [itU] using hstB)).trans h2, ?_, ?_, ?_⟩
+      · simp only [if_true, eval_tmpvar, set_same, c1, c2]
+      · simp only [if_true]; exact (set_tmp_agreeU _ _ _).trans (hagB.trans c3)
+      · intro k hk
+        simp only []
+        rw [set_other _ _ (by intro h; injection h with h; omega)]
+        rw [htmB k (by omega)]; exact htmA k (by simpa using hk)
+    | false =>
+      rw [hv] at hstA
+      obtain ⟨sB, hstB, hevB, hagB, htmB⟩ := ihy .val (σ.len + 1) (itU c x b σ).2.2 bl hu.2 hs.2 (by omega) (by rw [heb2]) hxv sA rv
+      rw [heb2] at hstB
+      obtain ⟨c1, c2, c3⟩ := eval_from_agree env y hu.2 sA (eval env c s).2 htrA hagA
+      have h2 := hQ sB rv
+      have hevB' : eval env (itV c x y b σ).1 sB = ((eval env y sA).1, (sB.1, (eval env y sA).2.2)) := hevB
+      rw [hevB'] at h2
+      refine ⟨_, (hstA.trans (by simpa [itV] using hstB)).trans h2, ?_, ?_, ?_⟩
+      · simp only [Bool.false_eq_true, if_false, eval_tmpvar, set_same, c1, c2]
+      · simp only [Bool.false_eq_true, if_false]; exact (set_tmp_agreeU _ _ _).trans (hagB.trans c3)
+      · intro k hk
+        simp only []
+        rw [set_other _ _ (by intro h; injection h with h; omega)]
+        have h4 := gu.touch.tmp
+        rw [htmB k (by omega)]; exact htmA k (by simpa using hk)
+
+/-- **the expression builder is correct on hoist-safe expressions** -/
+theorem sem_all (env : Env) (e : Expr) : SemE env e := by
+  induction e with
+  | var x => exact sem_var env x
+  | num n => exact sem_num env n
+  | bool v => exact sem_bool env v
+  | call0 g => exact sem_call0 env g
+  | un o e ih => exact sem_un o ih
+  | bi o l r ihl ihr => exact sem_bi o ihl ihr
+  | cmp2 o1 o2 l m r ihl _ ihr => exact sem_cmp2 o1 o2 ihl ihr
+  | and l r ihl ihr => exact sem_and ihl ihr
+  | or l r ihl ihr => exact sem_or ihl ihr
+  | ite c x y ihc ihx ihy => exact sem_ite ihc ihx ihy
+  | walrus x e ih => exact sem_walrus x ih
+
 end GuppyVerif.Builder
